@@ -62,6 +62,21 @@ Theorem C17_learn_full_refines_any_accuracy :
     fr_res r = learn (map (enc_iter rk) (fr_trace r)) n_iterations draws st.
 Proof. exact (@learn_full_refines_gen). Qed.
 
+(* such codes exist whenever the domain's [>] is a strict weak order on the accuracies of the run
+   (irreflexive, transitive, and "not >" transitive: the rationals, non-NaN doubles, ...):
+   [grank gt l a] = number of values of l strictly below a *)
+Theorem C17_learn_full_refines_weak_order :
+  forall (W A : Type) (ltb : W -> W -> bool) (zero top : W) (w : nat -> nat -> W) (ao : acc_ops A)
+         (n_iterations : nat) (draws : list nat) (st : lstate nat),
+    let r := learn_full ltb zero top w ao n_iterations draws st in
+    let accs := map (@fi_acc W A) (fr_trace r) in
+    let gt := ao_gt ao in
+    ((forall a, In a accs -> gt a a = false) /\
+     (forall a b c, In a accs -> In b accs -> In c accs -> gt a b = true -> gt b c = true -> gt a c = true) /\
+     (forall a b c, In a accs -> In b accs -> In c accs -> gt a b = false -> gt b c = false -> gt a c = false)) ->
+    fr_res r = learn (map (enc_iter (grank gt accs)) (fr_trace r)) n_iterations draws st.
+Proof. exact (@learn_full_refines_weak_order). Qed.
+
 (* ---------------------------------------------------------------------------------------- *)
 (* transferred corollaries                                                                  *)
 
@@ -106,6 +121,37 @@ Theorem C17_learn_full_snapshot :
     fr_nodes r = fst (predict_on ltb zero w (l_Xt sb)
                                  (fit_on ltb zero top w (l_Xt sb) (l_Yt sb)) (l_Xv sb)).
 Proof. exact (@learn_full_snapshot). Qed.
+
+(* the last two statements for ANY accuracy domain (in particular binary64, Model/LearnFullFloat.v),
+   in terms of the domain's own [>] (ao_gt a b = "a > b"): no iteration run beats the kept one, the
+   kept one beats every earlier one; [rk] is any integer coding of the accuracies of the run that
+   orders them as [>] does - it exists as soon as [>] is a strict weak order on those values *)
+Theorem C17_learn_full_keeps_best_any_accuracy :
+  forall (W : Type) (ltb : W -> W -> bool) (zero top : W) (w : nat -> nat -> W)
+         (A : Type) (ao : acc_ops A) (rk : A -> Z)
+         (n_iterations : nat) (draws : list nat) (st : lstate nat),
+    1 <= n_iterations ->
+    let r := learn_full ltb zero top w ao n_iterations draws st in
+    (forall it it', In it (fr_trace r) -> In it' (fr_trace r) ->
+       Z.ltb (rk (fi_acc it')) (rk (fi_acc it)) = ao_gt ao (fi_acc it) (fi_acc it')) ->
+    let b := r_best (fr_res r) in
+    r_iters (fr_res r) = length (fr_trace r) /\ 1 <= length (fr_trace r) <= n_iterations /\
+    exists itb, nth_error (fr_trace r) b = Some itb /\
+      (forall i it, nth_error (fr_trace r) i = Some it -> ao_gt ao (fi_acc it) (fi_acc itb) = false) /\
+      (forall i it, i < b -> nth_error (fr_trace r) i = Some it -> ao_gt ao (fi_acc itb) (fi_acc it) = true).
+Proof. exact (@learn_full_keeps_best_gen). Qed.
+
+Theorem C17_learn_full_snapshot_any_accuracy :
+  forall (W : Type) (ltb : W -> W -> bool) (zero top : W) (w : nat -> nat -> W)
+         (A : Type) (ao : acc_ops A) (rk : A -> Z)
+         (n_iterations : nat) (draws : list nat) (st : lstate nat),
+    1 <= n_iterations ->
+    let r := learn_full ltb zero top w ao n_iterations draws st in
+    let sb := state_at (map (enc_iter rk) (fr_trace r)) (r_best (fr_res r)) draws st in
+    r_snap (fr_res r) = (l_Xt sb, l_Yt sb) /\
+    fr_nodes r = fst (predict_on ltb zero w (l_Xt sb)
+                                 (fit_on ltb zero top w (l_Xt sb) (l_Yt sb)) (l_Xv sb)).
+Proof. exact (@learn_full_snapshot_gen). Qed.
 
 (* ---------------------------------------------------------------------------------------- *)
 (* the classifier left in the object is an optimum-path forest (C17 with C01 / C02)         *)
